@@ -15,6 +15,7 @@ import Compress.Drv.BitIO
 import Compress.Drv.Wrap
 import Compress.Drv.Bzip2
 import Compress.Drv.WriterApi
+import Compress.Drv.ReaderApi
 
 open Compress.Util Compress.Drv
 
@@ -61,6 +62,7 @@ def processLine (brotliDict : ByteArray) (line : String) : String :=
       | "mdec" => handleMdec kv
       | "mrs" => handleMrs kv
       | "lwm" => handleLwm kv
+      | "lrm" => handleLrm kv
       | _ => "bad-kind"
     s!"{id} {out}"
 
